@@ -365,6 +365,69 @@ def dot_twin_batches(rnd, acc):
     acc.count("anything_batches_over_dot_twins")
 
 
+def anything_rule_looped_over_subjects(ev, mods, imps, rnd, acc, forced=None):
+    """ONE 'anything' rule object re-used for one module after the other (rule.modules_that().are_named(next)), with a log
+    line - str(rule), which may raise for such a rule - before each application: every application is the rule for the
+    subject given last."""
+    from pytestarch import Rule
+
+    from ..drive import ANY_METHOD
+
+    if forced:
+        subs, d, kind = forced["subjects"], forced["dir"], forced["kind_"]
+    else:
+        kind = rnd.choice(["named", "named", "sub"])
+        subs = pick_unrelated(rnd, mods, rnd.randint(2, 4), kind=kind)
+        d = rnd.choice(rrule.DIRS)
+    if len(subs) < 2:
+        return
+    flt = "are_named" if kind == "named" else "are_sub_modules_of"
+    rule = getattr(Rule().modules_that(), flt)(subs[0]).should_not()
+    getattr(rule, ANY_METHOD[d])()
+    steps = []
+    for i, s in enumerate(subs):
+        if i:
+            getattr(rule.modules_that(), flt)(s)
+        try:
+            str(rule)
+        except Exception:  # noqa: BLE001
+            pass
+        HUB.case = {"kind": "anything-loop", "mods": mods, "imps": imps, "subjects": list(subs), "dir": d, "kind_": kind, "step": i}
+        steps.append(((kind, s), d, run(rule, ev)))
+        acc.evaluated()
+    acc.count("anything_rule_objects_looped_over_subjects")
+    return steps
+
+
+def private_internals(rnd, acc, forced=None):
+    """'The internals of X are private to X': sub modules of X should (not) be imported by / import anything except X, on
+    architectures in which X itself imports its own (deep) descendants and they import X."""
+    if forced:
+        mods, imps, x = forced["mods"], [tuple(i) for i in forced["imps"]], forced["x"]
+    else:
+        mods = random_tree(rnd, 7, 12)
+        pk = [m for m in mods if m != "r" and any(is_ancestor(m, y) for y in mods)]
+        if not pk:
+            return
+        x = rnd.choice(pk)
+        desc = [m for m in mods if is_ancestor(x, m)]
+        imps = set(random_imports(rnd, mods, k_max=8))
+        for _ in range(rnd.randint(1, 4)):
+            d = rnd.choice(desc)
+            e = (x, d) if rnd.random() < 0.6 else (d, x)
+            if not (is_ancestor(e[0], e[1]) and e[1].count(".") == e[0].count(".") + 1):
+                imps.add(e)
+        imps = sorted(imps)
+    ev = build(mods, imps)
+    for verb in ("should", "should_not"):
+        for d in rrule.DIRS:
+            cfg = {"verb": verb, "dir": d, "exc": True, "subs": [("sub", x)], "objs": [("named", x)], "anything": False}
+            HUB.case = {"kind": "private-internals", "mods": mods, "imps": imps, "x": x}
+            run(mk_rule(cfg), ev)
+            acc.evaluated()
+    acc.count("private_internals_idiom_cases")
+
+
 def randomised(spec, acc):
     rnd = random.Random(spec["seed"])
     done = 0
@@ -378,6 +441,10 @@ def randomised(spec, acc):
             dot_twin_batches(rnd, acc)
         if rnd.random() < 0.25:
             interleaved_construction(ev, mods, imps, rnd, acc)
+        if rnd.random() < 0.3:
+            anything_rule_looped_over_subjects(ev, mods, imps, rnd, acc)
+        if rnd.random() < 0.3:
+            private_internals(rnd, acc)
         for _ in range(12):
             cfg = random_cfg(rnd, mods)
             if cfg is None:
@@ -414,6 +481,11 @@ def randomised(spec, acc):
 
 
 def replay(case, acc):
+    if case.get("kind") == "private-internals":
+        return private_internals(random.Random(0), acc, forced=case)
+    if case.get("kind") == "anything-loop":
+        ev = build(case["mods"], [tuple(i) for i in case["imps"]])
+        return anything_rule_looped_over_subjects(ev, case["mods"], [tuple(i) for i in case["imps"]], random.Random(0), acc, forced=case)
     if case.get("twice"):
         cfg = dict(case["cfg"], subs=[tuple(x) for x in case["cfg"]["subs"]], objs=[tuple(x) for x in case["cfg"]["objs"]])
         ev = build(case["mods"], [tuple(i) for i in case["imps"]])
